@@ -3,7 +3,9 @@ package verifsim
 import (
 	"fmt"
 	"runtime"
+	"runtime/debug"
 	"strings"
+	"sync"
 	"testing"
 	"testing/synctest"
 )
@@ -56,7 +58,20 @@ func register(s *Scenario) {
 }
 
 // execute runs one simulation of scn driven by tape and returns what happened.
+// Garbage collection is taken out of the runs: a collection that starts in the middle of a run makes goroutines assist
+// or yield at allocation points, which can change the order in which the library's own (eagerly running) goroutines get
+// to run - and when a cycle starts depends on what the process did before, so a re-execution of the same tape would
+// not see it at the same place. The collector is switched off and run explicitly between runs.
+var (
+	gcOff     sync.Once
+	execCount int
+)
+
 func execute(t *testing.T, scn *Scenario, tape *Tape, trace bool) (res *RunResult) {
+	gcOff.Do(func() { debug.SetGCPercent(-1) })
+	if execCount++; execCount%32 == 0 {
+		runtime.GC()
+	}
 	progress.Add(1)
 	defer func() {
 		if r := recover(); r != nil {
